@@ -503,6 +503,32 @@ Proof.
     rewrite (g_g _ Gs _ Hx) in Hs. discriminate.
 Qed.
 
+(* The pool of every reachable state — in particular the one a restart re-derives by traversing what is stored — is EXACT:
+   it holds a (path, hash) pair iff the hash is missing and the pair is the root's or a child pair of a restored pair; every
+   path of a missing node below every restored occurrence of its parent, none lost, none invented.  It is a function of the
+   database alone: what an uninterrupted run holds at the same database. *)
+Lemma pool_exact s : Good s ->
+  forall x, In x (pool s) <-> rootkid (store s) x /\ stored (store s) (snd x) = false.
+Proof.
+  intros Gs x. split.
+  - intros Hx. split; [apply (v_b2 _ _ (g_inv _ Gs) _ Hx)|apply (g_g _ Gs _ Hx)].
+  - intros [Hr Hs]. destruct Hr as [->|(p & h & n & l & Hp & Hl & Hk & Hf)].
+    + destruct (v_c _ _ (g_inv _ Gs)) as [H|H]; [|assumption].
+      exfalso. assert (stored (store s) root = true) by (apply stored_iff; eauto). simpl in Hs. congruence.
+    + destruct x as [q c]. simpl in *. subst q.
+      destruct (v_d _ _ (g_inv _ Gs) _ _ _ _ _ Hp Hl Hk) as [H|H]; [|assumption].
+      exfalso. assert (stored (store s) c = true) by (apply stored_iff; eauto). congruence.
+Qed.
+
+Theorem restart_pool_exact fuel ops s :
+  fuel_ok fuel -> Forall genuine_op ops ->
+  run true true fuel T root ops (init root) = Some s ->
+  forall x, In x (pool s) <-> rootkid (store s) x /\ stored (store s) (snd x) = false.
+Proof.
+  intros Hf Hg Hr. destruct (run_good fuel Hf ops (init root) Hg good_init) as (s' & E & Gs). rewrite Hr in E. inv E.
+  apply pool_exact. assumption.
+Qed.
+
 (* For every sequence of deliveries (any order, batching, duplication, nodes that were never asked for, undecodable
    bytes, non-canonical encodings — refused) and restarts at any point: the run never fails, the pool is empty exactly
    when every node of the trie is in the database, and then the restored (path, node) pairs are exactly the occurrences
